@@ -797,6 +797,30 @@ pub async fn wipeout(w: &mut World, m: &mut Mon, r: &mut R, g: usize, lender: us
     w.refresh_oracles();
     let saved_ca = save_price(w, ca);
     scale_price_any(w, ca, 1e-12).await;
+    if r.gen_bool(0.5) {
+        // the worthless collateral is seized completely, which leaves an account that owes and
+        // holds nothing: its owner must not be able to close it (the debt would lose its record)
+        let pos = {
+            let acc = w.acct(a);
+            let q = BankQ::of(&w.bank(ca));
+            acc.lending_account.balances.iter().find(|b| b.active != 0 && b.bank_pk == w.banks[ca].key).map(|b| to_u64_floor(&(fx(&b.asset_shares.value) * &q.asv)).unwrap_or(0)).unwrap_or(0)
+        };
+        // the debt bank's vault is empty (everything is lent out) and a liquidation moves its
+        // insurance fee out of that vault: put a little liquidity back first
+        let i = w.ix_deposit(lender, db, lk.pubkey(), w.ta_of(lender, db), 1_000_000, None);
+        let _ = w.exec(m, &[i], &[&lk]).await;
+        let i = w.ix_liquidate(lender, a, ca, db, lk.pubkey(), pos);
+        let o = w.exec(m, &[i], &[&lk]).await;
+        if o.ok() {
+            m.r.count("scen.wipeout_collateral_fully_seized");
+        } else {
+            m.r.count(&format!("scen.wipeout_full_seizure_rejected/{}", o.custom_code().map(|c| c.to_string()).unwrap_or_else(|| "other".into())));
+        }
+        let p = w.chain.payer.pubkey();
+        let i = ix::close_account(w.accts[a].key, auth.pubkey(), p);
+        let o = w.exec(m, &[i], &[&auth]).await;
+        m.r.count(if o.ok() { "scen.indebted_account_close_accepted" } else { "scen.indebted_account_close_rejected" });
+    }
     let admin = clone_kp(&w.groups[g].admin);
     let i = w.ix_bankruptcy(a, db, admin.pubkey());
     let o = w.exec(m, &[i], &[&admin]).await;
@@ -929,6 +953,14 @@ pub async fn sunset(w: &mut World, m: &mut Mon, r: &mut R, lev: &Lev, g: usize, 
     if !w.exec(m, &[i], &[&admin]).await.ok() {
         m.r.count("scen.sunset_configure_rejected");
         return;
+    }
+    {
+        // the borrower itself repays everything on the flagged bank: it pays like anybody else
+        // (simulated, so that the token-less path below still finds the debt)
+        let ok = w.auth_of(lev.acct);
+        let i = w.ix_repay(lev.acct, db, ok.pubkey(), w.ta_of(lev.acct, db), 0, Some(true));
+        let o = w.probe(m, &[i], &[&ok]).await;
+        m.r.count(if o.ok() { "scen.sunset_owner_repay_all_simulated" } else { "scen.sunset_owner_repay_all_rejected" });
     }
     let acct = w.accts[lev.acct].key;
     if !w.shadow.contains_key(&ix::liq_record_key(&acct)) {
